@@ -3,7 +3,9 @@
      B. the chunk sequence does not depend on the settings
      C. chunks concatenated = the printed tree without the layout of its spine
      D. the output is the chunk sequence glued by blank/newline separators (any widths)
-     E. totality on trees whose spine operations have an operand *)
+     E. totality on trees whose spine operations have an operand
+     F. (any LR tables) every operation of a tree returned by the parser has an operand
+     G. equality up to layout (Erase.erase) implies luqum's == *)
 Require Import Base Decimal Tree GenTree Visitor Print Pretty TreeInd ActionProofs.
 From Coq Require Import Lia.
 
